@@ -692,7 +692,9 @@ class StructureVisitor(ASTTemplate):
                 elif col not in comps and output_ds and col in output_ds.components:
                     comps[col] = output_ds.components[col]
                 elif col not in comps:
-                    comps[col] = self._make_comp(col, Number)
+                    comps[col] = self._make_comp(
+                        col, Number, calc_role, calc_role != Role.IDENTIFIER
+                    )
         return Dataset(name=input_ds.name, components=comps, data=None)
 
     def _build_ds_ds_binop_structure(self, node: AST.BinOp) -> Optional[Dataset]:
